@@ -1,7 +1,7 @@
 #!/bin/sh
 # confirm_seed.sh <PROP> <X>   - confirm a sub-agent's seeded change in a fresh scratch worktree of /repo HEAD
 # (patch applies, 70 stable tests pass with it, demo fails with it and passes without), then file it under seeded/.
-P=$1; X=$2; SRC=/tmp/seedout/$P; WT=/tmp/confirm_$P_$X_$$
+P=$1; X=$2; SRCDIR=${3:-$1}; OUTX=${4:-$2}; SRC=/tmp/seedout/$SRCDIR; WT=/tmp/confirm_$P_$X_$$
 set +e
 git -C /repo worktree add --detach -q $WT HEAD
 trap "git -C /repo worktree remove --force $WT" EXIT
@@ -10,9 +10,9 @@ D0=$( /venv/bin/python $SRC/${X}_demo.py $WT >/tmp/confirm_demo0.log 2>&1; echo 
 git apply $SRC/$X.patch.diff
 T=$( /venv/bin/python -m pytest -q -p no:cacheprovider tests/test_dimsemessages.py tests/test_pdu.py 2>&1 | tail -1 )
 D1=$( /venv/bin/python $SRC/${X}_demo.py $WT >/tmp/confirm_demo1.log 2>&1; echo $? )
-echo "$P/$X: demo on HEAD exit=$D0, tests with patch: $T, demo with patch exit=$D1"
+echo "$P/$OUTX (from $SRCDIR/$X): demo on HEAD exit=$D0, tests with patch: $T, demo with patch exit=$D1"
 if [ "$D0" = 0 ] && [ "$D1" = 1 ] && echo "$T" | grep -q "70 passed"; then
-  DEST=/verif/seeded/$P-$X; mkdir -p $DEST
+  DEST=/verif/seeded/$P-$OUTX; mkdir -p $DEST
   cp $SRC/$X.patch.diff $DEST/patch.diff; cp $SRC/${X}_demo.py $DEST/demo.py
   /venv/bin/python - $SRC/${X}_meta.json $DEST/meta.json "$T" $(git -C /repo rev-parse --short HEAD) <<'PY'
 import json, sys
